@@ -401,6 +401,9 @@ def gen_equipment_doc(rng, raman=False):
     return ej, name
 
 
+ROUTE_OBJECTS_OUT_OF_ORDER = [0]
+
+
 def gen_service_doc(rng):
     sites = ['A', 'B', 'C', 'D']
     reqs = []
@@ -419,6 +422,15 @@ def gen_service_doc(rng):
                       slots=slots, path_bandwidth=bw, max_nb=rng.choice([None, 40, 20]),
                       power=rng.choice([None, 0.001, noisy(rng, 0.0012589254117941673, 'output-power')]),
                       tx_power=rng.choice([None, 0.001, noisy(rng, 0.0005, 'tx_power')]))
+        ero = r.get('explicit-route-objects', {}).get('route-object-include-exclude')
+        if ero and len(ero) >= 2 and rng.random() < 0.5:
+            # the index is the key of the list and gives the order of the hops: the objects may be listed in any order
+            # and the indices need not be consecutive
+            if rng.random() < 0.5:
+                for k, o in enumerate(ero):
+                    o['index'] = 2 * k + 1
+            rng.shuffle(ero)
+            ROUTE_OBJECTS_OUT_OF_ORDER[0] += 1
         reqs.append(r)
     doc = {'path-request': reqs}
     if len(reqs) >= 2 and rng.random() < 0.6:
@@ -576,7 +588,9 @@ def run_equipment(ctx, raman=False):
 
 def run_services(ctx):
     rng = ctx.rng
+    ROUTE_OBJECTS_OUT_OF_ORDER[0] = 0
     doc = gen_service_doc(rng)
+    ctx.count('requests_with_route_objects_out_of_order', ROUTE_OBJECTS_OUT_OF_ORDER[0])
     ctx.dump.update({'document': doc})
     rt = roundtrip(ctx, doc, 'services')
     if rt is None:
